@@ -46,7 +46,9 @@ func NewFeatureTypeFromProto(t pb.FeatureType) FeatureType {
 	case pb.FeatureType_FeatureTypeExpression:
 		return FeatureTypeExpression
 	}
-	panic(fmt.Sprintf("Invalid pb.FeatureType: %s", t))
+	// Proto enums are open: a client can send any number here. It names
+	// no feature type, rather than being a reason to stop the process.
+	return FeatureTypeInvalid
 }
 
 func NewProtoFromFeatureType(t FeatureType) pb.FeatureType {
